@@ -302,6 +302,23 @@ def catalogue():
         lambda a: [BeckeWeights().generate_weights(a["points"], a["atcoords"], a["atnums"], select=1), BeckeWeights().generate_weights(a["points"], a["atcoords"], a["atnums"], pt_ind=a["indices"])], family="aim")
     add("BeckeWeights.compute_atom_weight", ["BeckeWeights.compute_atom_weight"], bargs, lambda a: BeckeWeights().compute_atom_weight(a["points"], a["atcoords"], a["atnums"], 2), family="aim")
     add("BeckeWeights.compute_weights", ["BeckeWeights.compute_weights"], bargs, lambda a: BeckeWeights().compute_weights(a["points"], a["atcoords"], a["atnums"], pt_ind=a["indices"]), family="aim")
+    # elements whose Bragg radius is not tabulated (the fallback branch of the radius lookup), some of them repeated, with and
+    # without a user radius for one of them (added after seeded change C20-I: the fallback rewrote the caller's atomic numbers)
+    def bargs_noble():
+        a = bargs()
+        a["atnums"] = np.array([10, 1, 86, 10])
+        a["radii"] = {86: 2.1}
+        return a
+
+    add("BeckeWeights()[untabulated radii]", ["BeckeWeights"], bargs_noble, lambda a: BeckeWeights(radii=a["radii"], order=2)(a["points"], a["atcoords"], a["atnums"], a["indices"]))
+    add("BeckeWeights.__call__[untabulated radii]", ["BeckeWeights.__call__"], bargs_noble, lambda a: BeckeWeights()(a["points"], a["atcoords"], a["atnums"], a["indices"]))
+    add("BeckeWeights.generate_weights[untabulated radii]", ["BeckeWeights.generate_weights"], bargs_noble,
+        lambda a: [BeckeWeights().generate_weights(a["points"], a["atcoords"], a["atnums"], select=1), BeckeWeights().generate_weights(a["points"], a["atcoords"], a["atnums"], pt_ind=a["indices"])])
+    add("BeckeWeights.compute_atom_weight[untabulated radii]", ["BeckeWeights.compute_atom_weight"], bargs_noble,
+        lambda a: [BeckeWeights().compute_atom_weight(a["points"], a["atcoords"], a["atnums"], k) for k in (0, 2)])
+    add("BeckeWeights.compute_weights[untabulated radii]", ["BeckeWeights.compute_weights"], bargs_noble,
+        lambda a: [BeckeWeights().compute_weights(a["points"], a["atcoords"], a["atnums"], pt_ind=a["indices"]),
+                   BeckeWeights(radii=a["radii"]).compute_weights(a["points"], a["atcoords"], a["atnums"], select=[2, 0], pt_ind=a["indices"][[0, 2, 4]])])
     add("HirshfeldWeights.__call__", ["HirshfeldWeights.__call__"], bargs, lambda a: HirshfeldWeights()(a["points"], a["atcoords"], a["atnums"], a["indices"]), family="aim")
     add("HirshfeldWeights.generate_proatom", ["HirshfeldWeights.generate_proatom"], bargs, lambda a: HirshfeldWeights.generate_proatom(a["points"], a["atcoords"][0], 6), family="aim")
     add("get_cov_radii", ["get_cov_radii"], bargs, lambda a: [ut.get_cov_radii(a["atnums"]), ut.get_cov_radii(a["atnums"], "cambridge")], family="aim")
